@@ -366,6 +366,15 @@ func (ex *Exec) structuralClauses(res *FuncResult) {
 			ob.VCs = append(ob.VCs, VC{goal: "false", note: "assert_at " + key + ": no call of that name is reached on any path: the clause is vacuous"})
 		}
 	}
+	// tokens: every producer and consumer of the channel held in the named local must be visible to the verifier
+	for _, tn := range ct.tokens {
+		ob := ex.obl(ex.rootName+"/tokens:"+tn+":tracked", "structural")
+		if why := ex.tokenTracked(tn); why == "" {
+			ob.VCs = append(ob.VCs, VC{goal: "true", note: "all uses of " + tn + " are sends, receives, select arms, close, or captures by goroutines with a `sends " + tn + " once` contract"})
+		} else {
+			ob.VCs = append(ob.VCs, VC{goal: "false", note: "channel " + tn + " is not token-trackable: " + why})
+		}
+	}
 	// selects: the function must have a select receive arm for each named channel
 	if len(ct.selects) > 0 {
 		have := map[string]bool{}
@@ -460,4 +469,100 @@ func chanSourceName(v ssa.Value) string {
 		return x.Name()
 	}
 	return v.Name()
+}
+
+// tokenTracked checks, on the SSA of the root function, that the channel stored in local variable name is made here and
+// only used in ways the token count accounts for. It returns "" or the reason it is not.
+func (ex *Exec) tokenTracked(name string) string {
+	var al *ssa.Alloc
+	for _, b := range ex.root.Blocks {
+		for _, in := range b.Instrs {
+			if a, ok := in.(*ssa.Alloc); ok && a.Comment == name {
+				al = a
+			}
+		}
+	}
+	if al == nil {
+		return "no local variable of that name"
+	}
+	okUse := func(v ssa.Value, inClosure bool) string {
+		for _, r := range *v.Referrers() {
+			switch x := r.(type) {
+			case *ssa.Send:
+				if x.Chan != v {
+					return "the channel itself is sent as a value"
+				}
+			case *ssa.Select:
+				if inClosure {
+					for _, s := range x.States {
+						if s.Chan == v && s.Dir == types.RecvOnly {
+							return "a goroutine receives from it"
+						}
+					}
+				}
+			case *ssa.UnOp:
+				if inClosure {
+					return "a goroutine receives from it"
+				}
+			case *ssa.Call:
+				if bi, ok := x.Common().Value.(*ssa.Builtin); !ok || (bi.Name() != "close" && bi.Name() != "len" && bi.Name() != "cap") {
+					return "passed to " + x.Common().Value.Name()
+				}
+			case *ssa.DebugRef:
+			default:
+				return fmt.Sprintf("used by %T", r)
+			}
+		}
+		return ""
+	}
+	for _, r := range *al.Referrers() {
+		switch x := r.(type) {
+		case *ssa.Store:
+			if x.Addr != al {
+				return "its address is stored"
+			}
+			if _, ok := x.Val.(*ssa.MakeChan); !ok {
+				return "assigned from something other than make(chan)"
+			}
+		case *ssa.UnOp:
+			if why := okUse(x, false); why != "" {
+				return why
+			}
+		case *ssa.MakeClosure:
+			cf := x.Fn.(*ssa.Function)
+			gct := ex.w.contractFor(cf)
+			declared := false
+			if gct != nil {
+				for _, sname := range gct.sendsOnce {
+					if sname == name {
+						declared = true
+					}
+				}
+			}
+			for i, bnd := range x.Bindings {
+				if bnd != al {
+					continue
+				}
+				fvar := cf.FreeVars[i]
+				uses := 0
+				for _, fr := range *fvar.Referrers() {
+					if ld, ok := fr.(*ssa.UnOp); ok {
+						uses++
+						if why := okUse(ld, true); why != "" {
+							return "in " + shortFn(cf) + ": " + why
+						}
+					} else if _, ok := fr.(*ssa.DebugRef); !ok {
+						return "in " + shortFn(cf) + ": " + fmt.Sprintf("captured variable used by %T", fr)
+					}
+				}
+				if uses > 0 && !declared {
+					return "captured by " + shortFn(cf) + ", which has no `sends " + name + " once` contract"
+				}
+			}
+		case *ssa.DebugRef:
+		default:
+			return fmt.Sprintf("variable used by %T", r)
+		}
+	}
+	return ""
 }
